@@ -1199,6 +1199,17 @@ def judge(out, c, r, decl, xmldir):
     if "undecided" in kinds:
         out.counter("dontcare_value_model_undecided")
         return
+    if fam == "additional_choices" and "plain_ok" in r:
+        # the same input on a handler that was never given the additional
+        # choices (while other handlers of the process hold them)
+        _, ex_plain = model(decl, uroot, ())
+        if ex_plain.errors and "undecided" not in [e[0] for e in ex_plain.errors]:
+            out.eval("additional_choices_plain_handler")
+            if r["plain_ok"]:
+                out.violation("merge/additional-choice-accepted-by-handler-without-it",
+                              "a value outside the declared choices is accepted "
+                              "by a handler that has no additional choices "
+                              "(another handler of the process has them)", wit)
     if fam in ("valid", "unchecked", "additional_choices"):
         if fam == "additional_choices":
             out.distinct.add(h)
